@@ -828,8 +828,6 @@ def _attribute(case, out):
                     feats.append("frame")
             elif multi:
                 feats.append("axis=1" if case["kw"].get("axis") == 1 else "frame")
-            if multi and len(cols) == 1 and case["kw"].get("axis") == 1:
-                pass
     else:
         used = _used_columns(cur)
         nullable = {c: "float64" for c in used if CLASS[c] == "nullable"}
